@@ -36,6 +36,16 @@ M = {
         "                if log_number + 1 not in self._log_number_offset:",
         "                if log_number < log_number_from and not line.endswith(b\"\\n\"):\n                    self._log_number_offset[log_number + 1] = self._log_number_offset[log_number] + byte_len\n                    continue\n                if log_number + 1 not in self._log_number_offset:",
         ["C07"]),
+    # ---- C05 -------------------------------------------------------------------------------
+    "file-unfix-torn-tail": ("optuna/storages/journal/_file.py",
+        "            self._drop_unterminated_tail()\n", "", ["C05"]),
+    "journal-ack-before-write": ("optuna/storages/journal/_storage.py",
+        "            self._write_log(JournalOperation.SET_TRIAL_USER_ATTR, log)\n            self._sync_with_backend()",
+        "            self._sync_with_backend()\n            self._replay_result.apply_logs([{\"op_code\": JournalOperation.SET_TRIAL_USER_ATTR, \"worker_id\": self._replay_result.worker_id, **log}])\n            self._replay_result.log_number_read -= 1\n            import threading as _t\n            _t.Thread(target=self._write_log, args=(JournalOperation.SET_TRIAL_USER_ATTR, log)).start()",
+        ["C05"]),
+    "file-no-partial-line-tolerance": ("optuna/storages/journal/_file.py",
+        "                if not line.endswith(b\"\\n\"):\n                    last_decode_error = ValueError(\"Invalid log format.\")\n                    del self._log_number_offset[log_number + 1]\n                    continue\n",
+        "                if not line.endswith(b\"\\n\"):\n                    raise ValueError(\"Invalid log format.\")\n", ["C05", "C07"]),
     # ---- C01 -------------------------------------------------------------------------------
     "rdb-count-past-trials-no-study-filter": ("optuna/storages/_rdb/models.py",
         "            TrialModel.study_id == self.study_id, TrialModel.trial_id < self.trial_id",
